@@ -482,3 +482,33 @@ func init() {
 		}
 	})
 }
+
+// ------------------------------------------------------------------ C12.R11
+// "After a block update with recheck only transactions the application still accepts remain": a transaction
+// rejected on recheck leaves the *pool* unconditionally; the keep-invalid-txs-in-cache option decides only
+// whether it also leaves the cache. Sibling rule over v0 (resCbRecheck) and v1 (handleRecheckResult).
+func init() {
+	register("C12", "R11", "K5+K11", "a transaction rejected on recheck is removed from the pool whatever the cache option says (v0 and v1)", 2, func(c *Ctx) {
+		w := c.W
+		for _, spec := range []struct{ pkg, fn, remove string }{
+			{"mempool/v0", "CListMempool.resCbRecheck", "mempool/v0#CListMempool.removeTx"},
+			{"mempool/v1", "TxMempool.handleRecheckResult", "mempool/v1#TxMempool.removeTxByElement"},
+		} {
+			f := c.fn(spec.pkg, spec.fn)
+			if f == nil {
+				continue
+			}
+			fk := funcKey(f)
+			sites := w.deepCallsTo(f, 2, spec.remove)
+			c.Check(len(sites) >= 1, fk+" :: rejected transaction is removed from the pool", w.pos(f.Pos()), "removal call present", "no removal of the rejected transaction")
+			for _, dc := range sites {
+				for _, a := range w.necessaryAtoms(dc.site.Parent(), dc.site) {
+					if strings.Contains(a, "KeepInvalidTxsInCache") {
+						c.Fail(fk+" :: removal from the pool does not depend on the cache option", w.ipos(dc.site), "the rejected transaction is removed from the pool only when "+a+": with the other setting it stays in the pool after recheck")
+					}
+				}
+				c.OK(fk+" :: removal site", w.ipos(dc.site), "unconditional w.r.t. the cache option")
+			}
+		}
+	})
+}
